@@ -545,6 +545,18 @@ static J gen_gc(Chooser &ch)
       c["lat2"] = std::max(-PI / 2, std::min(PI / 2, -c["lat1"].num() + ch.real(-0.3, 0.3)));
     }
   else { c["lon2"] = ch.real(-PI, PI); c["lat2"] = ch.real(-PI / 2, PI / 2); }
+  // 12%: the ends of the range, where the dot product of the unit vectors rounds to just outside [-1, 1]: exactly opposite points
+  // (and a hair off), identical points, pole to pole
+  if (ch.chance(12))
+    {
+      const int k = static_cast<int>(ch.range(0, 4));
+      if (k == 0) { c["lon2"] = c["lon1"].num() + (c["lon1"].num() > 0 ? -PI : PI); c["lat2"] = -c["lat1"].num(); }
+      else if (k == 1) { c["lon2"] = c["lon1"].num() + PI + ch.real(-1e-8, 1e-8); c["lat2"] = -c["lat1"].num() + ch.real(-1e-8, 1e-8); }
+      else if (k == 2) { c["lon2"] = c["lon1"]; c["lat2"] = c["lat1"]; }
+      else if (k == 3) { c["lat1"] = PI / 2; c["lat2"] = -PI / 2; }
+      else { c["lon1"] = ch.lattice(-180, 180, 15) * DEG; c["lat1"] = ch.lattice(-90, 90, 15) * DEG; c["lon2"] = c["lon1"].num() + PI; c["lat2"] = -c["lat1"].num(); }
+      c["lat2"] = std::max(-PI / 2, std::min(PI / 2, c["lat2"].num()));
+    }
   return c;
 }
 static Result check_gc(const J &c)
@@ -560,6 +572,8 @@ static Result check_gc(const J &c)
   r.nontrivial = ang > 1e-3;
   r.inner_nt = r.nontrivial;
   r.classes.push_back(ang > PI / 2 ? ">90deg" : "<=90deg");
+  if (ang > PI - 1e-6) r.classes.push_back("(nearly) opposite points");
+  if (!std::isfinite(got)) return Result::fail("great-circle-not-finite", "distance " + fmt(got) + " for points " + fmt(ang) + " rad apart (radius " + fmt(R) + ")");
   // acos-based formula: absolute angular error up to ~1e-8 near 0 and pi
   if (std::fabs(got - R * ang) > R * 3e-8)
     return Result::fail(ang > PI / 2 ? "great-circle-beyond-90" : "great-circle", "distance " + fmt(got) + " but great-circle distance is " + fmt(R * ang) + " (angle " + fmt(ang) + " rad)");
@@ -576,6 +590,6 @@ int main(int argc, char **argv)
     {"bezier_cartesian", "polylines 2..7 points, bends <=60deg, queries within 300 km with interior foot; 15% mirror-symmetric arcs of 3 or 5 coordinates queried on their axis (foot exactly at a joint of two segments); oracle: 4000-sample/segment dense sampling; non-trivial: interior foot", 600, [](Chooser &ch) { return gen_bezier(ch, false); }, check_bezier},
     {"bezier_spherical", "same in lon/lat radians with great-circle (haversine) metric", 600, [](Chooser &ch) { return gen_bezier(ch, true); }, check_bezier},
     {"sph_roundtrip", "r in [1,1e8], all lon/lat incl. poles and +-180", 20000, gen_roundtrip, check_roundtrip},
-    {"great_circle", "pairs of points on a sphere, 45% forced >90deg apart; oracle atan2(|axb|,a.b)", 20000, gen_gc, check_gc},
+    {"great_circle", "pairs of points on a sphere, 45% forced >90deg apart, 12% exactly / nearly opposite, identical or pole to pole; oracle atan2(|axb|,a.b)", 20000, gen_gc, check_gc},
   });
 }
